@@ -300,9 +300,108 @@ def robust_composition(chk):
                 meta={"replay": {"what": "robust", "shared": True}, "paths": str([(o.kind, o.exc, o.note) for o in outs])})
 
 
+def molgrid_helper(chk):
+    """_interpolate_molgrid_helper on a two-atom molecular grid (representation as MolGrid.__init__ leaves it, C07)."""
+    eng = chk.eng
+    fq = f"{MODP}._interpolate_molgrid_helper"
+    N0, N1 = z3.Ints("N0 N1")
+    F = z3.Function("f_value", IS, RS)
+    AIMW = z3.Function("aim_weight", IS, RS)
+    INT = z3.Function("atom_solution", IS, IS, RS)
+    t0 = z3.Int("t0")
+    rep = {"what": "helper", "shared": True}
+    rec = []
+
+    def thunk(eng_):
+        del rec[:]
+        eng_.assume(z3.And(N0 >= 1, N1 >= 1, NE >= 1, j0 >= 0, j0 < NE, t0 >= 0))
+        total = N0 + N1
+        ats = []
+        for a in range(2):
+            o = I.Obj(eng_.get_class("grid.atomgrid", "AtomGrid"))
+            o.fields["_atom_index"] = a
+            ats.append(o)
+        mg = I.Obj(eng_.get_class("grid.molgrid", "MolGrid"))
+        offs = [z3.IntVal(0), N0, total]
+        mg.fields.update(_indices=I.Arr((3,), lambda j: M.select_const(j, [lambda v=v: v for v in offs]), "int"),
+                         _atcoords=I.Arr((2, 3), lambda a, c: z3.Function("centre", IS, IS, RS)(T.zi(a), T.zi(c)), "real"),
+                         _aim_weights=I.Arr((total,), lambda j: AIMW(T.zi(j)), "real"), _atgrids=ats, _kdtree=None,
+                         _points=I.Arr((total, 3), lambda j, c: GP(T.zi(j), T.zi(c)), "real"), _weights=I.Arr((total,), lambda j: z3.RealVal(1), "real"))
+        fv = I.Arr((total,), lambda j: F(T.zi(j)), "real")
+        before = fv.fn
+
+        def make(eng__, atom_grid, vals):
+            n = len(rec)
+            rec.append((atom_grid, vals))
+
+            def sol(eng___, pts):
+                return I.Arr((pts.shape[0],), lambda j, n=n: INT(n, T.zi(j)), "real")
+            return I.Model("atom_solution", sol)
+        res = eng_.call(eng_.get_function(MODP, "_interpolate_molgrid_helper"), [mg, fv, I.Model("interpolate_callable", make)])
+        ev = I.Arr((NE, 3), lambda j, c: EP(T.zi(j), T.zi(c)), "real")
+        out = eng_.call(res, [ev])
+        return dict(out=out, rec=list(rec), ats=ats, untouched=fv.fn is before)
+    outs = chk.explore("_interpolate_molgrid_helper/two-atoms", thunk, func=fq)
+    rets = [o for o in outs if o.kind == "return"]
+    chk.add("_interpolate_molgrid_helper/post/returns-on-every-path", [], z3.BoolVal(bool(rets) and len(rets) == len(outs)), func=fq,
+            meta={"replay": rep, "paths": str([(o.kind, o.exc, o.note) for o in outs])})
+    for oi, o in enumerate(rets):
+        v = o.value
+        hy = list(o.pc)
+        chk.add_from_path(f"_interpolate_molgrid_helper/path{oi}", o, func=fq, meta={"replay": rep})
+        ok = len(v["rec"]) == 2 and all(v["rec"][a][0] is v["ats"][a] and isinstance(v["rec"][a][1], I.Arr) and v["rec"][a][1].ndim == 1 for a in range(2))
+        chk.add("_interpolate_molgrid_helper/post/one-solve-per-atom-on-that-atoms-grid", [], z3.BoolVal(bool(ok)), func=fq, meta={"replay": rep})
+        if not ok:
+            continue
+        s0, s1 = v["rec"][0][1], v["rec"][1][1]
+        chk.add("_interpolate_molgrid_helper/post/each-atom-gets-its-segment-of-f-times-the-aim-weights", hy,
+                z3.And(T.zi(s0.shape[0]) == N0, T.zi(s1.shape[0]) == N1, z3.Implies(t0 < N0, T.zr(s0.fn(t0)) == F(t0) * AIMW(t0)),
+                       z3.Implies(t0 < N1, T.zr(s1.fn(t0)) == F(N0 + t0) * AIMW(N0 + t0))), func=fq, meta={"replay": rep})
+        chk.add("_interpolate_molgrid_helper/post/result-is-the-sum-of-the-atomic-solutions", hy,
+                z3.And(T.zi(v["out"].shape[0]) == NE, T.zr(v["out"].fn(j0)) == INT(0, j0) + INT(1, j0)), func=fq, meta={"replay": rep})
+        chk.add("_interpolate_molgrid_helper/frame/callers-values-are-not-written", [], z3.BoolVal(bool(v["untouched"])), kind="frame", func=fq, meta={"replay": rep})
+        chk.canary("_interpolate_molgrid_helper", hy)
+
+    # store=False molecular grids are rejected; an AtomGrid is wrapped with unit weights
+    def t_nostore(eng_):
+        mg = I.Obj(eng_.get_class("grid.molgrid", "MolGrid"))
+        mg.fields.update(_atgrids=None)
+        return eng_.call(eng_.get_function(MODP, "_interpolate_molgrid_helper"), [mg, I.Arr((NP,), lambda j: F(T.zi(j)), "real"), I.Model("cb", lambda e, g, vals: None)])
+    outs = chk.explore("_interpolate_molgrid_helper/no-store", t_nostore, func=fq)
+    chk.add("_interpolate_molgrid_helper/raises/molecular-grid-without-stored-atomic-grids", [],
+            z3.BoolVal(bool(outs) and all(o.kind == "raise" and o.exc == "ValueError" for o in outs)), func=fq, meta={"replay": rep})
+
+    wrapped = []
+
+    def t_atom(eng_):
+        del wrapped[:]
+
+        def mol(eng__, f, args, kwargs):
+            wrapped.append((list(args), dict(kwargs)))
+            raise I.PathEnd("wrapped")
+        eng_.callee_contracts["grid.molgrid.MolGrid"] = mol
+        try:
+            eng_.assume(NP >= 1)
+            ag = I.Obj(eng_.get_class("grid.atomgrid", "AtomGrid"))
+            ag.fields.update(_weights=I.Arr((NP,), lambda j: z3.RealVal(1), "real"), _size=NP)
+            return eng_.call(eng_.get_function(MODP, "_interpolate_molgrid_helper"), [ag, I.Arr((NP,), lambda j: F(T.zi(j)), "real"), I.Model("cb", lambda e, g, vals: None)])
+        finally:
+            eng_.callee_contracts.pop("grid.molgrid.MolGrid", None)
+            t_atom.seen = list(wrapped)
+    outs = chk.explore("_interpolate_molgrid_helper/atomgrid", t_atom, func=fq)
+    w = getattr(t_atom, "seen", [])
+    okw = len(w) == 1 and w[0][1].get("store") is True and isinstance(w[0][1].get("atgrids"), list) and len(w[0][1]["atgrids"]) == 1 and isinstance(w[0][1].get("aim_weights"), I.Arr)
+    goal = z3.BoolVal(False)
+    if okw:
+        aw = w[0][1]["aim_weights"]
+        goal = z3.And(T.zi(aw.shape[0]) == NP, z3.Implies(z3.And(i0 >= 0, i0 < NP), T.zr(aw.fn(i0)) == 1))
+    chk.add("_interpolate_molgrid_helper/post/an-atomic-grid-is-wrapped-as-a-one-atom-molecular-grid-with-unit-weights", [NP >= 1], goal, func=fq, meta={"replay": rep})
+
+
 def build(chk):
     core_density(chk)
     robust_composition(chk)
+    molgrid_helper(chk)
 
 
 def main(tier="quick", seed=0, bounded=True, proof=True):
